@@ -549,7 +549,13 @@ def accepted_journal(ctx, rng, j):
 ROW_FIELDS = ['payee', 'acct', 'virtual', 'date', 'aux', 'cleared', 'pending', 'code', 'note', 'tags', 'tagval']
 
 
-XX
+def classify_row_diff(field, a, b, x=None, k=None):
+    """a specific, stable key for a difference between an original row and the re-read one"""
+    if field in ('cleared', 'pending'):
+        p = x.posts[k] if (x is not None and k is not None and k < len(x.posts)) else None
+        if p is not None and x.state and p.mark and p.mark != x.state:
+            return 'reread-rows:posting-state-lost-under-marked-xact'
+        return 'reread-rows:state'
     if field == 'amt':
         if a and b and a[1] == 0 and b[1] == 0:
             return 'reread-rows:zero-amount-commodity-lost'
